@@ -365,6 +365,11 @@ def run_adv(seed: int, work: Path, trace_path: Path, *, steps: int = 40, mix: Op
     """one generated world driven by adversarial generators around (or instead of) the built-in ones"""
     rng = random.Random(seed)
     w = adv.gen_world(rng, n_steps=steps, **(world_kwargs or {}))
+    if seed % 3 == 1 and any(r.get("pax", 1) > 1 for r in w["requests"]):
+        # a fleet of small cars described with the optional seat column, and parties of two among the customers
+        rng3 = random.Random(seed * 17 + 3)
+        for v in w["vehicles"]:
+            v["seats"] = rng3.choice([1, 1, 2, 4])
     if resubmit and w["requests"]:
         # riders who submit their request AGAIN a step or two later, under the same id, from another street corner (while the
         # first one is usually still waiting): UpdateRequestsFromFile hands the row to add_request_safe (finding F19)
